@@ -318,7 +318,7 @@ Qed.
 
 Theorem run_accepts_acyclic fx ds ls :
   (forall n, 1 <= n <= length ls -> acyclic (link_edges fx (components ds) (firstn n ls))) ->
-  run fx ds ls = instantiate fx (components ds) ls.
+  run fx ds ls = instantiate fx (components ds) (sinks_of ds) ls.
 Proof.
   intros Ha. unfold run. pose proof (add_links_spec fx (components ds) ls) as H.
   destruct (add_links fx (components ds) ls) as [k|]; [|reflexivity].
